@@ -82,7 +82,7 @@ def main():
       lines = [l for l in out.stdout.split("\n") if l.startswith("VIOLATION")]
       return pid, seed, out.returncode, lines[:2]
     jobs = [(pid, 0) for pid in ids] + [(prop, 1)]
-    with ThreadPoolExecutor(max_workers=6) as ex:
+    with ThreadPoolExecutor(max_workers=10) as ex:
       for pid, seed, rc, lines in ex.map(one, jobs):
         results[f"{pid}/seed{seed}"] = {"rc": rc, "violations": lines}
   finally:
